@@ -162,10 +162,10 @@ func init() {
 			locked, readers := fr.m.sched.heldBy(p)
 			return Bool(!locked && readers == 0)
 		},
-		"verifGuardOn":    func(fr *frame, args []value) value { fr.m.guardOn = true; return nil },
-		"verifGuardOff":   func(fr *frame, args []value) value { fr.m.guardOn = false; return nil },
-		"verifRaceStress": noop,
-		"verifDailyLog":   inDailyLog,
+		"verifGuardOn":       func(fr *frame, args []value) value { fr.m.guardOn = true; return nil },
+		"verifGuardOff":      func(fr *frame, args []value) value { fr.m.guardOn = false; return nil },
+		"verifRaceStress":    noop,
+		"verifDailyLog":      inDailyLog,
 		"verifWatchDailyLog": noop,
 		"verifSetStdin": func(fr *frame, args []value) value {
 			bs, _ := args[0].([]value)
@@ -179,8 +179,8 @@ func init() {
 		},
 		"verifStdout":       func(fr *frame, args []value) value { return append([]value(nil), fr.m.stdout...) },
 		"verifRestoreStdio": noop,
-		"verifTempDir":    func(fr *frame, args []value) value { return "/verif-scratch-dir" },
-		"verifRemoveDir":  noop,
+		"verifTempDir":      func(fr *frame, args []value) value { return "/verif-scratch-dir" },
+		"verifRemoveDir":    noop,
 		"verifNativeRepeat": func(fr *frame, args []value) value { return BV(1, 64) },
 		"verifFixedClock": func(fr *frame, args []value) value {
 			fr.m.fixedNow = uint64(fr.m.asInt(args[0], "fixed clock"))
